@@ -132,6 +132,9 @@ def device_cases(tier):
             if tier == "quick" and i > len(keys) + 1 and (i + len(chset)) % 5:
                 continue
             out.append(("vdevice", c, chset))
+        if i < 3:
+            for chset in ("eom-RB", "eom-R", "eom-B", "ids-rev", "dmm-rev"):
+                out.append(("vdevice", c, chset))
     for mod in ("none", "layouts", "noise", "filling", "eom-custom", "no-dmm"):
         out.append(("device", mod))
     return out
@@ -149,7 +152,13 @@ def _channels(chset):
                                                                        mod_bandwidth=8.0, custom_phase_jump_time=42, min_avg_amp=0.5)]
     dmms = ()
     kw = {}
-    if chset == "eom":
+    if chset.startswith("eom"):
+        if chset != "eom":  # other beam selections and ORDERS of the tuple field: eom-RB, eom-R, eom-B (limiting beam BLUE)
+            import dataclasses
+
+            beams = {"eom-RB": (RydbergBeam.RED, RydbergBeam.BLUE), "eom-R": (RydbergBeam.RED,), "eom-B": (RydbergBeam.BLUE,)}[chset]
+            eom = dataclasses.replace(eom, controlled_beams=beams, limiting_beam=RydbergBeam.BLUE, multiple_beam_control=len(beams) > 1,
+                                      custom_buffer_time=None)
         chans[0] = Rydberg.Global(20.0, 10.0, mod_bandwidth=4.0, eom_config=eom, max_duration=None, propagation_dir=(1.0, 0.0, 0.0))
     if chset in ("dmm", "noise"):
         dmms = (DMM(bottom_detuning=-20.0, total_bottom_detuning=-100.0, clock_period=4, min_duration=16, mod_bandwidth=8.0), DMM())
@@ -157,9 +166,14 @@ def _channels(chset):
         from pulser.noise_model import NoiseModel
 
         kw["default_noise_model"] = NoiseModel(relaxation_rate=0.1, p_false_pos=0.02, eff_noise_rates=(0.1,), eff_noise_opers=(OP2,))
-    if chset == "ids":
+    if chset in ("ids", "ids-rev"):
         chans.append(Microwave.Global(None, None, max_duration=None))
         kw["channel_ids"] = ("ryd", "ram_loc", "mw")
+        if chset == "ids-rev":  # the same channels listed in another order
+            chans.reverse()
+            kw["channel_ids"] = ("mw", "ram_loc", "ryd")
+    if chset == "dmm-rev":
+        dmms = (DMM(), DMM(bottom_detuning=-20.0, total_bottom_detuning=-100.0, clock_period=4, min_duration=16, mod_bandwidth=8.0))
     return tuple(chans), dmms, kw
 
 
